@@ -53,6 +53,9 @@ type Parser struct {
 	// escape sequence
 	escTimeout *time.Timer
 	mu         sync.Mutex
+	// gen counts the runes parsed (and the end of parsing): the timer
+	// callback acts only if it is unchanged since the ESC
+	gen int
 
 	oscData []rune
 	apcData []rune
@@ -123,6 +126,7 @@ outer:
 		default:
 			r := p.readRune()
 			p.mu.Lock()
+			p.gen++
 			p.state = anywhere(r, p)
 			if p.state == nil {
 				p.mu.Unlock()
@@ -134,6 +138,11 @@ outer:
 	if p.escTimeout != nil {
 		p.escTimeout.Stop()
 	}
+	// a timer callback that is already running either finishes before the
+	// end marker or does nothing
+	p.mu.Lock()
+	p.gen++
+	p.mu.Unlock()
 	p.emit(EOF{})
 	close(p.sequences)
 	p.closed <- true
@@ -487,11 +496,17 @@ func anywhere(r rune, p *Parser) stateFn {
 			p.exit = nil
 		}
 		p.clear()
+		gen := p.gen
 		p.escTimeout = time.AfterFunc(10*time.Millisecond, func() {
-			p.emit(C0(0x1B))
 			p.mu.Lock()
+			defer p.mu.Unlock()
+			if p.gen != gen {
+				// a later byte was parsed, or the parser has stopped, before
+				// the timer got here: the ESC is not a lone one
+				return
+			}
+			p.emit(C0(0x1B))
 			p.state = ground
-			p.mu.Unlock()
 		})
 		return escape
 	default:
